@@ -495,6 +495,39 @@ def work(payload, skip, report):
             if i % 30011 == 0:
                 acc.sample({"input": text, "value": want})
         close_ctx(ctx)
+    elif kind == "fmt_switch":
+        # ONE context taken through a sequence of locales the way the repository's tests do it (lang_code, init_data_folder,
+        # init_localization_data): after every switch formatnum and its inverse behave as on a fresh context of that locale
+        _, seq = payload
+        nums = ["1234567.5", "1234.05", "0.5", "987654321"]
+        fresh = {}
+        for loc in sorted(set(seq)):
+            c2 = new_ctx(lang_code=loc)
+            c2.start_page("Tt")
+            fresh[loc] = [c2.expand("{{formatnum:%s}}" % n) for n in nums]
+            close_ctx(c2)
+        ctx = new_ctx(lang_code=seq[0])
+        for step, loc in enumerate(seq):
+            report(step)
+            if step:
+                ctx.lang_code = loc
+                ctx.init_data_folder()
+                ctx.init_localization_data()
+            ctx.start_page("Tt")
+            for n, want_f in zip(nums, fresh[loc]):
+                acc.case()
+                case = {"locale": loc, "number": n, "locales_before_on_this_context": list(seq[:step])}
+                try:
+                    f = ctx.expand("{{formatnum:%s}}" % n)
+                    back = ctx.expand("{{formatnum:%s|R}}" % f)
+                except Exception as ex:
+                    f, back = "EXC", type(ex).__name__
+                if f != want_f:
+                    acc.violation("formatnum_after_locale_switch", case, f, want_f)
+                elif back != n:
+                    acc.violation("formatnum_R_inverts_after_locale_switch", case, {"formatted": f, "reversed": back}, n)
+        acc.sample({"locale_sequence": list(seq)})
+        close_ctx(ctx)
     else:
         _, tier, locs = payload
         nums = numerals(tier)
@@ -555,6 +588,21 @@ def main(run):
     for k in range(16):
         if locs[k::16]:
             chunks.append(("fmt", run.tier, locs[k::16]))
+    # locale sequences on one context: every ordered pair of locales with distinct separator data, and two long walks
+    reps = {}
+    ctx0 = None
+    for loc in locs:
+        from ..fixtures import close_ctx as _cc, new_ctx as _nc
+        ctx0 = _nc(lang_code=loc)
+        key = (ctx0.LOCALIZATION_DATA["grouping_separator"], ctx0.LOCALIZATION_DATA["decimal_point"],
+               str(ctx0.LOCALIZATION_DATA.get("grouping_method")))
+        reps.setdefault(key, loc)
+        _cc(ctx0)
+    kinds_ = sorted(reps.values())
+    for a, b in itertools.permutations(kinds_, 2):
+        chunks.append(("fmt_switch", [a, b]))
+        chunks.append(("fmt_switch", [a, b, a]))
+    chunks.append(("fmt_switch", kinds_ + kinds_[::-1]))
     done = 0
     for cid, acc, hung in run_chunks(work, chunks, nproc=run.nproc, case_timeout=60):
         run.acc.merge(acc)
@@ -569,7 +617,7 @@ def main(run):
                 "compared with an independent fold (ill-defined ones belong to C05); every token string of length <= 4 over 11 symbols must be an "
                 "expression error iff it is not derivable from the expression grammar; string functions: every string of length <= %s "
                 "over {a,b,blank} x search strings x all offsets/lengths/counts in [-10,10]; #titleparts grids; plural; formatnum|R "
-                "round trip for all %d shipped locales x %d numeral shapes. distinct = distinct (function, value) pairs."
+                "round trip for all %d shipped locales x %d numeral shapes; one context switched through every ordered pair (and a-b-a, and a long walk) of locales with distinct separator data. distinct = distinct (function, value) pairs."
                 % (len(BIN), len(unops), "" if q else " plus depth 3 (binary root, one operand of depth <= 2 and the other of depth <= 1, both orders) over operators of adjacent precedence levels", "4" if q else "6",
                    len(locs), len(numerals(run.tier))),
         "exhaustive": True,
